@@ -455,3 +455,38 @@ Proof.
   - apply pt_eqb_eq in E. subst. constructor. apply IHo. exact H.
   - constructor. apply IHp. exact H.
 Qed.
+
+Lemma last_In {A} (l : list A) d : l <> [] -> In (last l d) l.
+Proof.
+  induction l as [|a l IH]; [congruence|]. intros _. destruct l as [|b r]; [left; reflexivity|].
+  right. apply IH. discriminate.
+Qed.
+
+(* what simplify_ok accepts: a subsequence of the input with the same first point, in which
+   every input point is kept or passes the exact near_segment test against a segment of the
+   output outline *)
+Lemma simplify_ok_sound closed pts eps4 out :
+  simplify_ok closed pts eps4 out = true ->
+  subseq out pts /\ hd_error out = hd_error pts /\
+  forall p, In p pts ->
+    In p out \/ exists a b, In a out /\ In b out /\ near_segment (16 * eps4 + 1) a b p = true.
+Proof.
+  unfold simplify_ok. rewrite !andb_true_iff. intros ((Hs & Hf) & Hc).
+  split; [apply subseqb_sound; exact Hs|]. split.
+  - destruct pts as [|p0 pr], out as [|o0 or]; try discriminate; [reflexivity|].
+    apply andb_true_iff in Hf. destruct Hf as [Hf _]. apply pt_eqb_eq in Hf. subst. reflexivity.
+  - intros p Hp. rewrite forallb_forall in Hc. specialize (Hc p Hp).
+    apply orb_true_iff in Hc. destruct Hc as [Hc|Hc]; [left; apply mem_pt_In; exact Hc|].
+    right. apply existsb_exists in Hc. destruct Hc as ((a & b) & Hab & Hn). cbn [fst snd] in Hn.
+    exists a, b. split; [|split; [|exact Hn]].
+    + destruct out as [|o0 [|o1 or]]; [cbn in Hab; destruct closed; destruct Hab|destruct Hab as [E|[]]; inversion E; left; reflexivity|].
+      apply in_app_iff in Hab. destruct Hab as [Hab|Hab].
+      * unfold consecutive in Hab. apply in_combine_l in Hab. exact Hab.
+      * destruct closed; [|destruct Hab]. destruct Hab as [E|[]]. injection E as Ea Eb.
+        rewrite <- Ea. right. change (In (last (o1 :: or) o0) (o1 :: or)). apply last_In. discriminate.
+    + destruct out as [|o0 [|o1 or]]; [cbn in Hab; destruct closed; destruct Hab|destruct Hab as [E|[]]; inversion E; left; reflexivity|].
+      apply in_app_iff in Hab. destruct Hab as [Hab|Hab].
+      * unfold consecutive in Hab. apply in_combine_r in Hab. right. exact Hab.
+      * destruct closed; [|destruct Hab]. destruct Hab as [E|[]]. injection E as Ea Eb.
+        rewrite <- Eb. left. reflexivity.
+Qed.
